@@ -44,7 +44,7 @@ var headers = []string{
 	"on: push\n",
 	"on: push\ndefaults:\n  run:\n    shell: bash\n",
 	"on:\n  workflow_dispatch:\n    inputs:\n      flag:\n        type: boolean\n      name:\n        type: string\ndefaults:\n  run:\n    shell: python\nenv:\n  TOP: ${{ github.nosuch }}\n",
-	"on:\n  workflow_call:\n    inputs:\n      flag:\n        type: boolean\n    secrets:\n      TOKEN:\n        required: true\nenv:\n  TOP: x\n",
+	"on:\n  workflow_call:\n    inputs:\n      flag:\n        type: boolean\n      exclude:\n        type: string\n    secrets:\n      TOKEN:\n        required: true\nenv:\n  TOP: x\n",
 }
 
 var commonIDs = []string{"build", "test", "setup"}
@@ -59,6 +59,7 @@ const (
 	mX
 	mN
 	mExpr
+	mInputs
 )
 
 type ectx struct {
@@ -73,7 +74,7 @@ type ectx struct {
 func genExpr(r *hx.Rng, c *ectx) string {
 	pool := []string{
 		"github.event_name", "github.nonexistent", "runner.os", "env.FOO", "format('{0}{1}', 'a')",
-		"secrets.TOKEN", "inputs.flag", "inputs.nope", "vars.CONF", "toJSON(github)", "unknownfn()",
+		"secrets.TOKEN", "inputs.flag", "inputs.nope", "inputs.exclude", "vars.CONF", "toJSON(github)", "unknownfn()",
 		"github.", "1 == 'a' && true", "fromJSON('[1,2]').*", "fromJSON('{\"a\":1}').b", "job.status", "strategy.job-index",
 		"matrix.os", "matrix.zzz",
 	}
@@ -88,6 +89,8 @@ func genExpr(r *hx.Rng, c *ectx) string {
 		pool = append(pool, "matrix.n", "matrix.n.*", "matrix.n + 1", "matrix.inc")
 	case mExpr:
 		pool = append(pool, "matrix.anything.goes", "matrix.x.*.y")
+	case mInputs:
+		pool = append(pool, "matrix.flag", "matrix.exclude", "matrix.nope")
 	}
 	for _, id := range c.stepIDs {
 		pool = append(pool, "steps."+id+".outputs.foo", "steps."+id+".conclusion", "steps."+id+".bad", "steps."+strings.ToUpper(id)+".outcome")
@@ -206,7 +209,7 @@ func genStep(r *hx.Rng, c *ectx, ind, id string, forceID bool) []string {
 }
 
 func matrixLines(r *hx.Rng, c *ectx, ind string) []string {
-	k := matrixKind(r.Intn(5))
+	k := matrixKind(r.Intn(6))
 	c.matrix = k
 	switch k {
 	case mOS:
@@ -221,6 +224,9 @@ func matrixLines(r *hx.Rng, c *ectx, ind string) []string {
 		return ls
 	case mExpr:
 		return []string{ind + "strategy:", ind + "  matrix: ${{ fromJSON(needs.nosuch.outputs.m) }}"}
+	case mInputs:
+		// the matrix is an expression whose type is an object shared with other jobs (the `inputs` context)
+		return []string{ind + "strategy:", ind + "  matrix: ${{ inputs }}"}
 	}
 	return nil
 }
@@ -723,6 +729,13 @@ func main() {
 	jobPool := make([]part, poolJobs)
 	for i := range jobPool {
 		jobPool[i] = genJobPart(r, i)
+	}
+	// two crafted parts in the slice that is linted under the workflow_call header: a job whose
+	// matrix is the shared `inputs` object, and a job that reads inputs.exclude / inputs.flag
+	if poolJobs >= 4*len(headers) {
+		base := 3 * (poolJobs / len(headers))
+		jobPool[base] = part{"job", []string{"  craftmi:", "    runs-on: ubuntu-latest", "    strategy:", "      matrix: ${{ inputs }}", "    steps:", "      - run: echo ${{ matrix.flag }}"}, "job-matrix-inputs"}
+		jobPool[base+1] = part{"job", []string{"  craftrd:", "    runs-on: ubuntu-latest", "    steps:", "      - run: echo ${{ inputs.exclude }} ${{ inputs.flag }}", "        env:", "          E: ${{ inputs.include }}"}, "job-reads-inputs"}
 	}
 	var jprefixes []string
 	var jpools [][]part
